@@ -236,6 +236,44 @@ fn fan_out_members() -> Vec<Value> {
     ]
 }
 
+/// grid sections that also hold members which are not arrays (a comment, a flag, a number, an object, null): the plugin has
+/// always skipped them; the array-valued fields around them must still be expanded under their own names. Every position of
+/// one or two such members among one to three array-valued fields
+fn stray_member_queries() -> Vec<Value> {
+    let strays: Vec<(&str, Value)> = vec![("comment", json!("sweep")), ("enabled", json!(true)), ("count", json!(3)), ("meta", json!({"by": "me"})), ("nothing", Value::Null)];
+    let fields: Vec<(&str, Value)> = vec![("alpha", json!(["a", "b"])), ("beta", json!([1, 2, 3])), ("gamma", json!([{"m2": "x"}, "y"]))];
+    let mut out = vec![];
+    for nf in 1..=3usize {
+        for (si, s1) in strays.iter().enumerate() {
+            for pos1 in 0..=nf {
+                for second in [None, Some(&strays[(si + 2) % strays.len()])] {
+                    for pos2 in 0..=nf {
+                        if second.is_none() && pos2 > 0 {
+                            continue;
+                        }
+                        let mut gs = Map::new();
+                        for slot in 0..=nf {
+                            if slot == pos1 {
+                                gs.insert(s1.0.to_string(), s1.1.clone());
+                            }
+                            if let Some(s2) = second {
+                                if slot == pos2 {
+                                    gs.insert(s2.0.to_string(), s2.1.clone());
+                                }
+                            }
+                            if slot < nf {
+                                gs.insert(fields[slot].0.to_string(), fields[slot].1.clone());
+                            }
+                        }
+                        out.push(json!({"origin_vertex": 0, "grid_search": Value::Object(gs)}));
+                    }
+                }
+            }
+        }
+    }
+    out
+}
+
 /// every list of 1-3 members (with repetition, tagged so that equal members stay distinct queries) behind the fan-out plugin
 fn check_fan_out(st: &mut Stats) -> u64 {
     let members = fan_out_members();
@@ -395,6 +433,12 @@ pub fn run(tier: Tier) -> i32 {
         check_query(&q, &mut st, true);
     }
     st.notes.insert(format!("{} queries whose grid options carry or mention the name of the grid section", mention_cases));
+    let mut stray_cases = 0u64;
+    for q in stray_member_queries() {
+        stray_cases += 1;
+        check_query(&q, &mut st, true);
+    }
+    st.notes.insert(format!("{} grid sections with members that are not arrays at every position among the array-valued fields", stray_cases));
     let n_fan = check_fan_out(&mut st);
     st.notes.insert(format!("{} lists of 1-3 queries with and without a grid section produced by a plugin ahead of grid search", n_fan));
     st.sample(4, || json!({"grid_search": {"alpha": [0, "v0_1"], "beta": [{"m1": "o0"}]}, "origin_vertex": 0}));
